@@ -375,6 +375,30 @@ theorem peg_hooks_paired (bytecode : List Int) (constants : List Val) (hb : byte
     WellPaired pegProg (pegItems bytecode constants).1 (pegItems bytecode constants).2 :=
   peg_wellPaired bytecode constants hb hc
 
+/-- … so a compiled PEG survives at the wire level: every bytecode word (as `peg_marshal` writes it, one int32 per word) and
+every constant, each with its sharing (a constant that is also reachable from elsewhere in the graph is one object after the
+round trip), for any bytecode length and any number of constants.  Not in this statement: `peg_unmarshal` then runs its
+bytecode verifier and recomputes `has_backref` (tested field by field and behaviourally by `pegfields.c`). -/
+theorem peg_roundtrip (T : Heap) (vf : Def → Bool) (hT : HeapCWF vf T) (fuel : Nat) (bytecode : List Int) (constants : List Val)
+    (hb : bytecode.length ≤ 2147483647) (hk : constants.length < 2147483648) (hw : ∀ w ∈ bytecode, Marsh.Int32 w)
+    (hv : ∀ v ∈ constants, ValWF v) (name : Val) (id : Nat)
+    (ho : T.objs[id]? = some (.abs name (pegItems bytecode constants).1 (pegItems bytecode constants).2))
+    (c : Ct) (bs : List Nat) (c' : Ct) (tl : List Nat) (hc : c ≤ T.size)
+    (hm : marshalHook (fun v c => marshalC fuel T v c) id (pegItems bytecode constants).1 (pegItems bytecode constants).2 c = some (bs, c')) :
+    unmarshalHook (fun c d => unmarshalC fuel vf c d) pegProg (CObj.abs name) c (bs ++ tl) = some (.ref id, tl, T.slice c c') := by
+  refine abstract_hook_roundtrip T vf hT fuel fuel (Nat.le_refl _) pegProg _ _ (peg_wellPaired bytecode constants hb hk)
+    ?_ ?_ (CObj.abs name) id ho c bs c' tl hc hm
+  · intro it hit
+    simp only [pegItems, List.mem_cons, List.mem_nil_iff, or_false] at hit
+    rcases hit with rfl | rfl
+    · simp only [ItemWF]; omega
+    · simp only [ItemWF, Marsh.Int32]; constructor <;> omega
+  · intro it hit
+    simp only [pegItems, List.mem_append, List.mem_map] at hit
+    rcases hit with ⟨w, hwm, rfl⟩ | ⟨v, hvm, rfl⟩
+    · exact hw w hwm
+    · exact hv v hvm
+
 /-- non-vacuity: a channel holding the same array twice (and an integer); the second occurrence goes out as a reference
 (`218, 1`) and comes back as the same object; bytes as `(marshal ch)` produces them after the type name -/
 example : marshalHook (fun v c => marshalC 5 ⟨[.abs .nil [.byte 0] [.byte 0, .int 10, .int 3, .janet (.ref 1), .janet (.int 7), .janet (.ref 1)],
